@@ -365,6 +365,15 @@ func (r *runner) react(u *ulInfo, m *Msg) []dlMsg {
 	}
 	if ue != nil {
 		m.UE = ue.Index
+		if u.sht != 0 && ue.vec != nil && len(u.nasPdu) >= 7 {
+			// MAC under the network-derived K_NASint: NIA2 over SQN ‖ message, COUNT = 0x0000 ‖ SQN, bearer 1, uplink
+			mac, err := security.NASMacCalculate(security.AlgIntegrity128NIA2, ue.vec.KnasInt, uint32(u.nasPdu[6]),
+				security.Bearer3GPP, security.DirectionUplink, u.nasPdu[6:])
+			if err == nil {
+				ok := bytes.Equal(mac, u.mac)
+				m.MacOK = &ok
+			}
+		}
 	}
 	switch u.ngap {
 	case "NGSetupRequest":
